@@ -16,7 +16,7 @@ DEFAULT_CONSTS = {
     "Prods": '{"now", "neg", "if", "mem", "delay", "proj", "app", "let", "letp", "letf", "lett", "asg", '
              '"tup", "ifp", "lam", "fnref"}',
     "NSamples": 6,
-    "AllowStatefulInBranchArm": "FALSE",
+    "AllowStatefulInBranchArm": "TRUE",
     "AllowStatefulInLambda": "FALSE",
     "AllowProjAsFeedResult": "FALSE",
 }
